@@ -109,14 +109,19 @@ def _call_fit(entry, est, X, y, w, facts):
 
 def _outputs(entry, est, Z, facts):
     before = R.params_image(est)
-    sz = _snap(Z)
-    for m in entry.available(est):
-        try:
-            entry.call(est, m, Z)
-        except Exception:  # noqa: BLE001 - refused method: invariants still checked
-            pass
-        require(R.params_image(est) == before, "predict:changes-params", "%s changed get_params" % m, dict(facts, method=m))
-        require(_snap(Z) == sz, "predict:writes-into-input", "%s modified its input" % m, dict(facts, method=m))
+    variants = [("C-order", Z)]
+    if isinstance(Z, np.ndarray) and Z.ndim == 2 and Z.dtype == np.float64:
+        # other memory layouts / dtypes of the same batch: a method may refuse them, it may not write into them
+        variants += [("F-order", np.asfortranarray(Z.copy())), ("float32", Z.astype(np.float32)), ("non-contiguous", np.repeat(Z, 2, axis=1)[:, ::2])]
+    for vname, Zv in variants:
+        sz = _snap(Zv)
+        for m in entry.available(est):
+            try:
+                entry.call(est, m, Zv)
+            except Exception:  # noqa: BLE001 - refused method / layout: invariants still checked
+                pass
+            require(R.params_image(est) == before, "predict:changes-params", "%s changed get_params" % m, dict(facts, method=m))
+            require(_snap(Zv) == sz, "predict:writes-into-input", "%s modified its input (%s batch)" % (m, vname), dict(facts, method=m, layout=vname))
 
 
 def check_history(case):
